@@ -541,8 +541,22 @@ class Analyzer(ExprMixin):
         self.cur_owner, self.cur_proc, self.guard_depth = p, p, 0
         for dcl in st.decls:
             self.declaration(dcl, pscope, ai, owner=p)
+        run_once = False
         if st.sens is None:
-            raise Unsupported("process without sensitivity list (wait statements)")
+            # the only modelled form: straight-line process that ends in `wait;` (runs once at initialisation)
+            def has_wait(stmts):
+                for x in stmts:
+                    if x.kind == "wait_forever":
+                        return True
+                    if x.kind == "if" and (any(has_wait(b) for _, b in x.arms) or has_wait(x.orelse)):
+                        return True
+                    if x.kind == "case" and any(has_wait(b) for _, b in x.arms):
+                        return True
+                return False
+            if not st.body or st.body[-1].kind != "wait_forever" or has_wait(st.body[:-1]):
+                raise Unsupported("process without sensitivity list (general wait statements)")
+            run_once = True
+            st.sens = []
         if st.sens == "all":
             sens_all = True
         else:
@@ -565,6 +579,8 @@ class Analyzer(ExprMixin):
         p.body = self.sequence(st.body, pscope)
         if sens_all:
             p.sens = sorted(p.reads, key=lambda o: o.idx)
+        elif run_once:
+            pass
         else:
             if not p.sens:
                 self.error("S-sens", f"process {st.label_raw} has an empty sensitivity list", st.line, what="empty")
@@ -859,7 +875,7 @@ class Analyzer(ExprMixin):
             return runn
         if k == "case":
             return self.case(s, scope)
-        if k == "null":
+        if k in ("null", "wait_forever"):
             return None
         if k == "assert":
             ce = self.condition(s.cond, scope, "condition of assert")
